@@ -11,8 +11,12 @@ Require Import DSG.GenFlowNames DSG.GenFnNames.
 
 (* ---- instructions -------------------------------------------------------------------------- *)
 Inductive carg := ALit (s : str) | AVar (v : str).        (* literal word | ${v} *)
+(* conditions that may call a user function: `if f a b`, `while not f x` (C05_cond) *)
+Inductive fcond := FCBase (c : cond) | FCCall (f : str) (args : list carg) | FCNot (c : fcond).
 Inductive farg :=
 | FBase (a : iarg)                                 (* an instruction of the C04 machine *)
+| FCondC (c : fcond)                               (* if / elseif / while with such a condition; only
+                                                      run by the machine of FlowFnC.v *)
 | FFn (scoped : bool) (name : str)                 (* fn name  |  fn <scope> name *)
 | FCall (out : option str) (args : list carg)      (* [out =] name args..   (the command is the name) *)
 | FReturn (a : option carg).                       (* return [value] *)
